@@ -1,6 +1,6 @@
 """C14 structural rules R2-R3: SAN reader tables vs. piece constants / geometry / writer; uniqueness of the parse."""
 from ..cfg import Cfg
-from ..expr import Exprs, fold, Unfoldable, show, leaves
+from ..expr import Exprs, fold, Unfoldable, show, leaves, subst
 from .. import geometry as G
 from .c15_struct import str_match_arms
 from .common import BB
@@ -178,3 +178,177 @@ _run_before_r4 = run
 def run(ctx):
     _run_before_r4(ctx)
     r4_disambiguation_candidates(ctx)
+
+
+def r5_disambiguation_table(ctx):
+    """the writer's choice of disambiguation follows the SAN rule for every combination of its predicates"""
+    rid = "C14.R5"
+    ctx.rule(rid, "SAN disambiguation decision table of uci_to_pgn (piece moves): no other like piece reaches the square -> nothing; another one does and none shares the file -> file letter; one shares the file and none the rank -> rank digit; both shared -> file and rank. Extracted from all paths of the decision, predicates classified by what their closures compare", floor=5)
+    from itertools import product
+    prog = ctx.prog
+    f = ctx.fn(rid, BB + "uci_to_pgn")
+    cfg, ex = Cfg(f), Exprs(f)
+    names = {int(k): v for k, v in f.get("names", {}).items()}
+    sym = [l for l, n in names.items() if "disambiguation" in n]
+    if len(sym) != 1:
+        ctx.lost(rid, "the local holding the disambiguation text in uci_to_pgn (a `let` whose name contains `disambiguation`)")
+        return
+    L = sym[0]
+
+    def value_class(callee, args):
+        last = callee.rsplit("::", 1)[-1]
+        flds = {x[2] for a in args for x in leaves(a) if x[0] == "f"}
+        if last == "new" and "String" in callee:
+            return "none"
+        if last in ("to_string", "from", "into", "to_owned"):
+            if "file" in flds and "rank" not in flds:
+                return "file"
+            if "rank" in flds and "file" not in flds:
+                return "rank"
+            if args and args[0][0] == "c" and args[0][1] == "":
+                return "none"
+        if last in ("must_use", "format"):
+            if "file" in flds and "rank" in flds:
+                return "both"
+        return None
+
+    defs = {}
+    for b in sorted(cfg.reach):
+        blk = f["blocks"][b]
+        if blk["cleanup"]:
+            continue
+        t = blk["term"]
+        if t["k"] == "call" and t.get("dest") and t["dest"]["l"] == L and not t["dest"]["p"]:
+            defs[b] = value_class(t["callee"].get("key") or "", [ex.operand(a) for a in t["args"]])
+        for s in blk["stmts"]:
+            if s["dst"] is not None and s["dst"]["l"] == L and not s["dst"]["p"]:
+                tv = ex.rvalue(s["rv"])
+                defs[b] = value_class(tv[1], list(tv[2])) if tv[0] == "call" else None
+    if len(defs) < 2 or any(v is None for v in defs.values()):
+        ctx.lost(rid, "the arms assigning the disambiguation text (found %s)" % sorted(defs.items()))
+        return
+    # entry of the decision: the deepest switch that dominates every arm
+    doms = [b for b in sorted(cfg.reach) if f["blocks"][b]["term"]["k"] == "switch" and all(cfg.dominates(b, d) for d in defs)]
+    entry = None
+    for b in doms:
+        if all(cfg.dominates(o, b) for o in doms):
+            entry = b
+    if entry is None:
+        ctx.lost(rid, "a single switch dominating all disambiguation arms")
+        return
+
+    def closure_kind(ck):
+        g = prog.fns.get(ck)
+        if g is None:
+            return None
+        eqs = set()
+        for b in g["blocks"]:
+            t = b["term"]
+            if t["k"] == "call":
+                k = t["callee"].get("key") or ""
+                last = k.rsplit("::", 1)[-1]
+                if last == "eq" and "Rank" in k:
+                    eqs.add("rank")
+                if last == "eq" and "File" in k:
+                    eqs.add("file")
+        if eqs == {"rank"}:
+            return "share_rank"
+        if eqs == {"file"}:
+            return "share_file"
+        if not eqs:
+            return "exists"
+        return None
+
+    def classify(d):
+        """(atom, tree-true-means-atom-true)"""
+        if d[0] == "un" and d[1] == "Not":
+            a = classify(d[2])
+            return (a[0], not a[1]) if a else None
+        if d[0] == "call":
+            last = d[1].rsplit("::", 1)[-1]
+            if last == "any":
+                for a in d[2]:
+                    if a[0] == "agg" and a[1] == "closure":
+                        k = closure_kind(a[2])
+                        return (k, True) if k else None
+            if last == "eq" and "Piece" in d[1]:
+                from ..expr import resolve_promoted
+                if any(x[0] == "c" and "PAWN" in str(x[3] or x[1]) for a in d[2] for x in leaves(resolve_promoted(prog, a))):
+                    return ("is_pawn", True)
+            if last == "is_empty":
+                return ("exists", False)
+        if d[0] == "bin" and d[1] in ("Gt", "Ge", "Ne", "Eq", "Lt", "Le"):
+            lens = [x for x in leaves(d) if x[0] == "call" and x[1].rsplit("::", 1)[-1] in ("len", "count")]
+            if len(lens) == 1:
+                try:
+                    one = fold(subst(d, {lens[0]: ("c", 1, "usize", None)}))
+                    two = fold(subst(d, {lens[0]: ("c", 2, "usize", None)}))
+                    if bool(one) != bool(two):
+                        return ("exists", bool(two))
+                except Unfoldable:
+                    return None
+        if d[0] == "discr" or (d[0] == "call" and d[1].endswith("discriminant_value")):
+            if any(x[0] == "c" and "PAWN" in str(x[3] or "") for x in leaves(d)):
+                return ("is_pawn", True)
+        return None
+
+    rows = []     # ({atom: bool}, class)
+    stack = [(entry, {}, [entry])]
+    unknown = []
+    while stack:
+        b, asg, path = stack.pop()
+        if b in defs:
+            rows.append((asg, defs[b]))
+            continue
+        t = f["blocks"][b]["term"]
+        succs = [x for x in cfg.succ[b] if not f["blocks"][x]["cleanup"]]
+        if t["k"] == "switch":
+            d = ex.operand(t["discr"])
+            c = classify(d)
+            if c is None:
+                unknown.append(show(d)[:100])
+                continue
+            for x in sorted(set(succs)):
+                truth = (x == t["otherwise"])
+                val = truth if c[1] else not truth
+                if c[0] in asg and asg[c[0]] != val:
+                    continue
+                a2 = dict(asg)
+                a2[c[0]] = val
+                if x not in path:
+                    stack.append((x, a2, path + [x]))
+        else:
+            for x in succs:
+                if x not in path:
+                    stack.append((x, asg, path + [x]))
+    if unknown or not rows:
+        ctx.lost(rid, "a predicate of the disambiguation decision could not be classified: %s" % sorted(set(unknown))[:2])
+        return
+    atoms = sorted({a for asg, _ in rows for a in asg})
+    ctx.ob(rid, "predicates", {"share_file", "share_rank"} <= set(atoms), "" if {"share_file", "share_rank"} <= set(atoms) else "the decision does not consult both `another candidate on the same file` and `... on the same rank` (found %s)" % atoms,
+           ctx.where(f), sample={"predicates": atoms, "rows": len(rows)})
+    want = {(False, False, False): "none", (True, False, False): "file", (True, False, True): "file", (True, True, False): "rank", (True, True, True): "both"}
+    LABEL = {(False, False, False): "no other like piece reaches the square", (True, False, False): "another like piece reaches the square and shares neither file nor rank (knights b1 and f3 to d2)",
+             (True, False, True): "another one shares the rank only", (True, True, False): "another one shares the file only", (True, True, True): "others share the file and the rank"}
+    for (exists, sf, sr), cls in sorted(want.items()):
+        got = set()
+        for asg, c in rows:
+            if asg.get("is_pawn", False):
+                continue
+            if asg.get("share_file", sf) != sf or asg.get("share_rank", sr) != sr or asg.get("exists", exists) != exists:
+                continue
+            got.add(c)
+        ok = got == {cls}
+        ctx.ob(rid, "row|exists=%d,file=%d,rank=%d" % (exists, sf, sr), ok,
+               "" if ok else "piece move, %s: uci_to_pgn writes %s, the SAN rule requires %s%s" % (
+                   LABEL[(exists, sf, sr)], sorted(got) or "nothing decidable", cls,
+                   " (the decision never asks whether another candidate exists at all)" if "exists" not in atoms and (exists, sf, sr) == (True, False, False) else ""),
+               ctx.where(f), sample={"writes": sorted(got), "expected": cls})
+
+
+_run_before_r5 = run
+
+
+def run(ctx):
+    _run_before_r5(ctx)
+    r5_disambiguation_table(ctx)
